@@ -238,7 +238,7 @@ theorem exec_ret_ok (n : Nat) (b : Base) (s s' : St) (top : Act) (rest : List Ac
       have : (absC s).sc = s.linear.length := rfl
       rw [← this, hsc, h2]
   | cons a rest' =>
-    obtain ⟨r, tail, h1, h2, h3, h4, h5, h6⟩ := hr.chain
+    obtain ⟨r, tail, h1, h2, h3, h4, h5, _, h6⟩ := hr.chain
     rw [h1] at hex
     simp only [run_set] at hex
     cases hex
@@ -415,8 +415,13 @@ theorem resolved_succ (n : Nat) (ih : AllSpec n) (b : Base) (s s' : St) (top : A
         · show s'.addr.length = _; rw [h3, ha1]; simp
       · -- the caller, suspended
         show Chain b s' (top :: rest) (s.data.map cellOf) s.linear.length s'.addr
-        refine ⟨s.pc + 1, s.addr, by rw [h3, hc1, hp1, ha1, hr.cur], by have := hr.pc; omega, ?_, ?_, hr.ok.ext he2,
+        refine ⟨s.pc + 1, s.addr, by rw [h3, hc1, hp1, ha1, hr.cur], by have := hr.pc; omega, ?_, ?_, hr.ok.ext he2, ?_,
           Chain.ext he2 _ _ _ _ hr.chain⟩
+        rotate_left 2
+        · obtain ⟨_, own, _, hdd, _, _, _⟩ := hr.inv
+          have : (absC s).data = s.data.map cellOf := rfl
+          rw [this] at hdd
+          rw [hdd]; simp
         · have hstep := CStep.simple (f := fnB s top.f) (absC s) _ 0 1 [] (s.data.map cellOf) (hr.fetchB hf) heff rfl rfl
           have := inv_step_s _ _ hr.ok.step _ _ _ _ _ hr.inv hstep
           have hA : top.A = s.addr.length := by
